@@ -349,6 +349,7 @@ type retInfo struct {
 	vals  []Val
 	st    *State
 	pos   token.Pos
+	block *ssa.BasicBlock
 }
 
 type Exec struct {
@@ -793,7 +794,7 @@ func (ex *Exec) typeInv(term string, t types.Type, st *State) string {
 			}
 		}
 		if u.Info()&types.IsString != 0 {
-			return "(and (<= 0 (slen " + term + ")) (<= (slen " + term + ") 72057594037927936))"
+			return ex.strInv(term)
 		}
 	case *types.Pointer, *types.Map:
 		return sOr("(= "+term+" 0)", sSel(ex.get(st, "alloc", "(Array Int Bool)"), "(rootOf "+term+")"))
@@ -806,7 +807,7 @@ func (ex *Exec) typeInv(term string, t types.Type, st *State) string {
 				return "(and (<= " + lo + " " + term + ") (<= " + term + " " + hi + "))"
 			}
 		case tpStr:
-			return "(and (<= 0 (slen " + term + ")) (<= (slen " + term + ") 72057594037927936))"
+			return ex.strInv(term)
 		}
 	}
 	return "true"
@@ -1003,7 +1004,7 @@ func (ex *Exec) instr(ins ssa.Instruction) {
 			vs = append(vs, ex.val(r))
 		}
 		ex.escapeCheck(i.Results, i.Pos())
-		ex.rets = append(ex.rets, retInfo{reach: ex.curReach, vals: vs, st: ex.curState.clone(), pos: i.Pos()})
+		ex.rets = append(ex.rets, retInfo{reach: ex.curReach, vals: vs, st: ex.curState.clone(), pos: i.Pos(), block: ex.curBlock})
 	case *ssa.Panic:
 		if ex.panicsWhen != "" {
 			ex.vc.oblige("panic.documented", "", i.Pos(), ex.curReach, ex.panicsWhen, "explicit panic only under the documented condition")
@@ -1216,6 +1217,12 @@ func (ex *Exec) doAlloc(i *ssa.Alloc) {
 	}
 	r := ex.newRef(i.Name() + "_" + sanitize(i.Comment))
 	ex.vals[i] = Val{T: r}
+	if n, ok := types.Unalias(pt).(*types.Named); ok && n.Obj().Pkg() != nil && n.Obj().Pkg().Path() == "strings" && n.Obj().Name() == "Builder" {
+		// a zero strings.Builder is empty (its content is tracked as a ghost string)
+		st := ex.curState
+		ex.set(st, "SB", "(Array Int Str)", sSto(ex.get(st, "SB", "(Array Int Str)"), r, ex.vc.strEmpty()))
+		return
+	}
 	ex.storeZero(ex.curState, r, pt)
 }
 
@@ -1577,3 +1584,9 @@ func (ex *Exec) isErrorLike(t types.Type) bool {
 	return types.Identical(t, types.Universe.Lookup("error").Type())
 }
 
+
+// strInv: every string value is canonical (bytes are zero outside [0,len)) and of plausible length.
+func (ex *Exec) strInv(term string) string {
+	ex.vc.strPrelude()
+	return "(and (<= 0 (slen " + term + ")) (<= (slen " + term + ") 72057594037927936) (str_wf " + term + "))"
+}
